@@ -1,5 +1,6 @@
 (* Collect engine — facet builders: executable model and specification (definitions only;
-   proofs live in Collect/FacetsProofs.v).
+   proofs live in Collect/FacetsLemmas.v, FacetsProofs.v (terms, collector), FacetsRangeProofs.v
+   (numeric / date ranges) and FacetsCorrProofs.v).
 
    Transcribed from /repo:
      search/facet/facet_builder_terms.go     TermsFacetBuilder  UpdateVisitor / StartDoc / EndDoc / Result
@@ -19,8 +20,8 @@
    Conventions.  Go [int] counters are 64 bit; they count visited terms, so they cannot wrap on
    any input that fits in memory and are modelled as unbounded Z.  The Go maps (termsCount,
    ranges) are association lists; the iteration order of a Go map is unspecified, the model uses
-   list order — FacetsProofs.v shows the result does not depend on it (the final sort is by a strict
-   total order on entries with distinct keys: [sorted_unique]).  [sort.Sort] is modelled by
+   list order — FacetsLemmas.v / FacetsProofs.v show the result does not depend on it (the final sort is by a strict
+   total order on entries with distinct keys: [sorted_unique], [finish_ext]).  [sort.Sort] is modelled by
    insertion sort for the same reason.  A negative facet size makes the Go code panic
    (slice bounds out of range in TrimToTopN / [:fb.size]); the model returns [None] there. *)
 From Coq Require Import ZArith List Bool.
@@ -330,6 +331,13 @@ Fixpoint dedup (l : list bytes) : list bytes :=
   end.
 Definition buckets (f : tfilter) (ms : list doc) : list bytes :=
   dedup (filter (accept f) (concat ms)).
+
+(* is a term / range name among the listed entries? *)
+Definition listed_b (es : list entry) (t : bytes) : bool := existsb (fun e : entry => beqb (fst e) t) es.
+
+(* visits of the buckets that are not listed *)
+Definition unlisted_spec (f : tfilter) (ms : list doc) (listed : list entry) : Z :=
+  zsum (map (fun t => if listed_b listed t then 0 else occ f t ms) (buckets f ms)).
 
 (* the listed order as a relation: count descending, then term ascending *)
 Definition e_lt (a b : entry) : Prop :=
